@@ -166,7 +166,7 @@ class SourceFile:
     def find_containers(self, header, lo, hi):
         """Find `impl ...` / `mod x` / `trait X` blocks whose normalised header
         equals `header`. Returns list of (body_lo, body_hi) (inside braces)."""
-        kw = header.split()[0]
+        kw = re.match(r"[A-Za-z_]+", header).group(0)
         rx = re.compile(r"\b%s\b" % re.escape(kw))
         out = []
         for mm in self._depth0_matches(rx, lo, hi):
